@@ -10,7 +10,7 @@ const RULE: &str = "cases = generated histories (chain histories with contracts,
 staking histories; bank histories). For each history the transcript (every response incl. events and data, Ok/Err, code ids, addresses, checksums, \
 query answers, what every contract invocation observed, final raw storage bytes) of a solo run is compared with: (1) a second fresh instance in the same \
 process, (2) two instances fed the same program alternately, operation by operation, while a third instance does unrelated work in between, \
-(3) separate OS processes started >= 1 s apart (different wall-clock second, address-space layout, hash-map keys), (4, thorough) the interpreter Miri with \
+(2b) a replay on a fresh thread in which a differently configured instance (other bech32 prefix, other block) was used first, (3) separate OS processes started >= 1 s apart (different wall-clock second, address-space layout, hash-map keys; one of them uses a differently configured instance before anything else), (4, thorough) the interpreter Miri with \
 isolation (any clock / entropy / environment / file access aborts) under different -Zmiri-seed values. distinct_nontrivial = distinct solo transcript digests \
 of histories compared in at least two modes.";
 
@@ -20,6 +20,10 @@ pub fn child(args: &[String]) {
     let chain_n: u64 = args.get(1).and_then(|s| s.parse().ok()).unwrap_or(2);
     let chain_len: usize = args.get(2).and_then(|s| s.parse().ok()).unwrap_or(10);
     let other_n: u64 = args.get(3).and_then(|s| s.parse().ok()).unwrap_or(1);
+    if args.get(4).map(|s| s.as_str()) == Some("foreign-first") {
+        // the very first instance of this process is a differently configured one
+        run_foreign_instance(seed);
+    }
     for l in digest_lines(seed, chain_n, chain_len, other_n) {
         println!("DIGEST {}", l);
     }
@@ -42,7 +46,7 @@ pub fn run(ctx: &Ctx) -> Report {
     let mut children = vec![];
     for i in 0..3 {
         let c = Command::new(&exe)
-            .args(["--c19-child", &seed.to_string(), &proc_n.to_string(), &chain_len.to_string(), &proc_other.to_string()])
+            .args(["--c19-child", &seed.to_string(), &proc_n.to_string(), &chain_len.to_string(), &proc_other.to_string(), if i == 1 { "foreign-first" } else { "plain" }])
             .env_remove("RUST_BACKTRACE")
             .stdout(std::process::Stdio::piped())
             .stderr(std::process::Stdio::piped())
@@ -103,6 +107,13 @@ pub fn run(ctx: &Ctx) -> Report {
             if ta != solo || tb != solo {
                 let which = if ta != solo { &ta } else { &tb };
                 rep.violate("C19", "interleaved-instance-transcript-differs", first_diff(&solo, which), json!({"engine": "e7", "mode": "interleaved", "history": i, "case": case}));
+            }
+            if i % 4 == 0 {
+                let tf = chain_after_foreign(&case, derive(seed, "foreign", w as u64, i));
+                rep.bump("c19/chain/after_foreign_instance_compared");
+                if tf != solo {
+                    rep.violate("C19", "transcript-depends-on-an-earlier-differently-configured-instance", first_diff(&solo, &tf), json!({"engine": "e7", "mode": "after-foreign-instance", "history": i, "case": case}));
+                }
             }
             rep.fingerprints.insert(fp_str(&d));
             if w == 0 && i == 0 {
@@ -184,7 +195,7 @@ pub fn run(ctx: &Ctx) -> Report {
     rep.rule = RULE.into();
     rep.assume("transcripts exclude error texts (Ok/Err only), as the property speaks of errors-or-not");
     rep.assume("Miri runs (thorough tier) use a short chain history (setup + 3 transactions) because the interpreter is ~4 orders of magnitude slower");
-    for k in ["c19/chain/twin_compared", "c19/chain/interleaved_compared", "c19/staking/twin_compared", "c19/bank/twin_compared", "c19/processes_compared", "c19/chain/unrelated_steps_interleaved"] {
+    for k in ["c19/chain/twin_compared", "c19/chain/interleaved_compared", "c19/staking/twin_compared", "c19/bank/twin_compared", "c19/processes_compared", "c19/chain/unrelated_steps_interleaved", "c19/chain/after_foreign_instance_compared"] {
         rep.require(k);
     }
     if thorough && rep.count("c19/miri_seeds_compared") == 0 && std::env::var("VERIF_MIRI_SEEDS").map(|s| s != "0").unwrap_or(true) {
